@@ -78,9 +78,14 @@ def check(run: Run) -> None:
     ok = run.prove("Props/C02.v")
     items, explained, failures, n_oracle, n_flips = [], set(), 0, 0, 0
     pending = []
-    for i in range(1500 if thorough else 260):
-        c = F.gen_case(rng, depth=2, unions=(i % 4 == 0), static_only=(i % 3 == 0), max_fields=5, leb=(i % 6 == 0), floats=(i % 2 == 0))
-        ds = [F.random_data(rng, rng.choice([4, 8, 12, 20, 28])) for _ in range(2)]
+    # aligned structures that END in a bit-field unit (full or partly used): the unit is flushed before the tail padding
+    FIXED = [Case(t, align=True, compiled=comp, endian=e) for comp in (False, True) for e in ("<", ">") for t in (
+        "struct main { uint32 a; uint8 b : 3; uint8 c : 2; };", "struct main { uint32 a; uint8 x; uint8 b : 4; };", "struct main { uint16 a; uint16 b : 9; };",
+        "struct main { uint64 a; uint16 b : 16; };", "struct N { uint32 a; uint8 b : 5; };\nstruct main { uint8 k; N n[2]; uint8 t : 1; };")]
+    n_gen = 1500 if thorough else 260
+    for i in range(n_gen + len(FIXED)):
+        c = FIXED[i - n_gen] if i >= n_gen else F.gen_case(rng, depth=2, unions=(i % 4 == 0), static_only=(i % 3 == 0), max_fields=5, leb=(i % 6 == 0), floats=(i % 2 == 0))
+        ds = [F.random_data(rng, rng.choice([4, 8, 12, 20, 28]) if i < n_gen else 40) for _ in range(2)]
         c.ops = [op for d in ds for op in (("parse", d, 0), ("dump", d, 0))]
         try:
             its = build_items(c)
@@ -167,6 +172,23 @@ def check(run: Run) -> None:
     for its_, rep in pending:
         run.report("C02/union" if any(id(x) in bad for x in its_) else "C02/union-dumped-through-largest-member", rep)
     report_unexplained(run, mism, explained, "corr_rw (Model.Reader.read_top / Model.Writer.dumps vs the implementation)")
+    # ---- recorded findings (fixed inputs; each is matched only when the dump is exactly the recorded wrong one) ----
+    for compiled in (False, True):
+        cs_f = structs.load("struct main { float f[]; uint8 x; };", compiled=compiled)
+        d = bytes.fromhex("0000803f0000008007")
+        out = cs_f.main(d).dumps()
+        if out != d:
+            failures += 1
+            run.report("C02/negative-zero-terminator" if out == bytes.fromhex("0000803f0000000007") else "C02/float-array",
+                       {"definition": "struct main { float f[]; uint8 x; };", "load_kwargs": {"compiled": compiled, "align": False}, "ops": [{"op": "parse+dump", "data": d.hex(), "observed": out.hex(), "expected": d.hex()}]})
+        cs_u = structs.load("struct main { uint8 _; uint8 x; uint8 _; };", compiled=compiled)
+        d = bytes([1, 2, 3])
+        out = cs_u.main(d).dumps()
+        if out != d:
+            failures += 1
+            run.report("C02/repeated-underscore-member" if out == bytes([3, 2, 3]) else "C02/underscore-member",
+                       {"definition": "struct main { uint8 _; uint8 x; uint8 _; };", "load_kwargs": {"compiled": compiled, "align": False}, "ops": [{"op": "parse+dump", "data": d.hex(), "observed": out.hex(), "expected": d.hex()}]})
+
     F.obligation_fallback(run, ok, bool(failures or mism))
     F.finish_cov(run, items, mism,
                  "random definitions (all member kinds, every 4th with unions) x endianness x {packed, aligned} x {compiled, interpreted} on inputs of 4..28 bytes; "
